@@ -40,6 +40,10 @@ func replayHist(line string) []Case {
 	h := &hist{cfg: f["cfg"], ext: map[string][]string{}}
 	fmt.Sscan(f["bias"], &h.bias)
 	h.pad = f["pad"] == "1"
+	h.crcmix = f["crcmix"] == "1"
+	if f["noise"] != "" {
+		h.noise = strings.Split(f["noise"], ";")
+	}
 	for _, t := range strings.Split(f["tables"], ";") {
 		if t == "" {
 			continue
